@@ -24,7 +24,7 @@ ASSUMPTIONS = [
     "the obsolete-branch rule (head older than 30 days) is outside the quantifier: all times lie within one 30-day span, its end points included (so no branch is obsolete)",
 ]
 
-SEARCH = ["BUG-7", "fix", "#12", "X", "v1.2", "(BUG-7)", "a+b", "x|y", "fix*", "[ab]", "\\d", "$1", "c++"]
+SEARCH = ["BUG-7", "fix", "#12", "X", "", " ", "v1.2", "(BUG-7)", "a+b", "x|y", "fix*", "[ab]", "\\d", "$1", "c++"]
 # the search text is a plain substring: messages that a regular-expression reading of it would match, but that do not contain it
 REGEX_NEAR = {"v1.2": "v182 released", "(BUG-7)": "see [BUG-7]", "a+b": "aab and ab", "x|y": "only y here", "fix*": "fi fixx",
               "[ab]": "a or b", "\\d": "digit 5", "$1": "1 dollar", "c++": "ccc"}
